@@ -242,6 +242,15 @@ class Ctx:
         self.tests = {}
         self.origs = {}
         self.orig_ids = {}
+        self.reuse = None      # a dict: the caller keeps ONE details dict and refills it for every outcome
+
+    def details(self, d):
+        new = mk_details(d)
+        if self.reuse is None:
+            return new
+        self.reuse.clear()
+        self.reuse.update(new)
+        return self.reuse
 
     def test(self, tid):
         if tid not in self.tests:
@@ -328,18 +337,18 @@ def invoke(top, c, ctx):
         if c[3][0] == "e":
             m(ctx.test(c[2]), ctx.orig(c[3][1][1]))
         else:
-            m(ctx.test(c[2]), details=mk_details(c[3][1]))
+            m(ctx.test(c[2]), details=ctx.details(c[3][1]))
     elif k == "skip":
         if c[2][0] == "r":
             top.addSkip(ctx.test(c[1]), c[2][1])
         else:
-            top.addSkip(ctx.test(c[1]), details=mk_details(c[2][1]))
+            top.addSkip(ctx.test(c[1]), details=ctx.details(c[2][1]))
     elif k == "ok":
         m = getattr(top, OK_METH[c[1]])
         if c[3] is None:
             m(ctx.test(c[2]))
         else:
-            m(ctx.test(c[2]), details=mk_details(c[3][1]))
+            m(ctx.test(c[2]), details=ctx.details(c[3][1]))
     elif k == "halt":
         top.stop()
     elif k == "done":
@@ -495,13 +504,35 @@ def expand(case, o):
     return h, pos
 
 
+def _snapshot(leaves, seen):
+    """the caller refills its details dict for the next outcome: what a sink logged BY REFERENCE is read now (a
+    shallow copy takes the dict's place in the log)"""
+    for n, (kind, x) in enumerate(leaves):
+        if kind == "T":
+            evs = x._events
+            for i in range(seen.get(n, 0), len(evs)):
+                if isinstance(evs[i], tuple):
+                    evs[i] = tuple(dict(a) if isinstance(a, dict) else a for a in evs[i])
+            seen[n] = len(evs)
+        else:
+            for kw in x[seen.get(n, 0):]:
+                if isinstance(kw.get("details"), dict):
+                    kw["details"] = dict(kw["details"])
+            seen[n] = len(x)
+
+
 def drive(case):
     ctx = Ctx()
+    if case.get("reuse"):
+        ctx.reuse = {}
+    seen = {}
     leaves = []
     top = build(case["stack"], leaves)
     raised = []
     given = []
     for j, c in enumerate(case["hist"]):
+        if ctx.reuse is not None:
+            _snapshot(leaves, seen)
         if c[0] == "real":
             calls, exc = run_real(top, c, ctx)
             given.append(calls)
@@ -1024,7 +1055,14 @@ def generate(rng, tier):
             s = ["E", s]
         c = {"stack": s, "hist": rand_hist(rng, rng.choice([0, 1, 2, 2, 3, 4]))}
         cases.append(with_faults(rng, c) if rng.random() < 0.5 else c)
-    return cases
+    # the caller keeps one details dict object and refills it for every outcome (a reporter that builds its details
+    # in place): every sink still gets the details of ITS outcome
+    extra = []
+    for c in cases[len(fixed):]:
+        if sum(1 for h in c["hist"] if h[0] in ("err", "skip", "ok") and h[-1] and h[-1][0] == "d") >= 2 \
+                and not has_real(c) and rng.random() < 0.35:
+            extra.append(dict(c, reuse=True))
+    return cases + extra
 
 
 def n_tests(case):
@@ -1039,6 +1077,15 @@ def nontrivial(case):
 
 
 def shrink(case):
+    if case.get("reuse"):
+        yield {k: v for k, v in case.items() if k != "reuse"}
+        for c in _shrink(case):
+            yield dict(c, reuse=True)
+    else:
+        yield from _shrink(case)
+
+
+def _shrink(case):
     s, h = case["stack"], case["hist"]
     # drop a whole test block, then single noise calls
     starts = [j for j, c in enumerate(h) if c[0] == "start"]
